@@ -74,7 +74,8 @@ type Term struct {
 	Bound []*Term  // quantifier bound variables
 	Pats  [][]*Term
 	ID    int
-	hasBound bool
+	hasBound bool    // has free (not yet quantified) bound variables
+	fb       []*Term // the free bound variables
 }
 
 type termTable struct {
@@ -123,14 +124,46 @@ func (tt *termTable) intern(t *Term) *Term {
 	}
 	tt.next++
 	t.ID = tt.next
-	for _, a := range t.Args {
-		if a.hasBound {
-			t.hasBound = true
+	// free bound variables
+	if t.Op == "bound" {
+		t.fb = []*Term{t}
+	} else {
+		seen := map[*Term]bool{}
+		for _, a := range t.Args {
+			for _, v := range a.fb {
+				if !seen[v] {
+					seen[v] = true
+					t.fb = append(t.fb, v)
+				}
+			}
+		}
+		for _, p := range t.Pats {
+			for _, x := range p {
+				for _, v := range x.fb {
+					if !seen[v] {
+						seen[v] = true
+						t.fb = append(t.fb, v)
+					}
+				}
+			}
+		}
+		if t.Op == "forall" || t.Op == "exists" {
+			var keep []*Term
+			for _, v := range t.fb {
+				bound := false
+				for _, b := range t.Bound {
+					if b == v {
+						bound = true
+					}
+				}
+				if !bound {
+					keep = append(keep, v)
+				}
+			}
+			t.fb = keep
 		}
 	}
-	if t.Op == "bound" {
-		t.hasBound = true
-	}
+	t.hasBound = len(t.fb) > 0
 	tt.tab[k] = t
 	return t
 }
@@ -756,7 +789,7 @@ func Forall(bound []*Term, body *Term, pats ...[]*Term) *Term {
 	if body == True {
 		return True
 	}
-	if !body.hasBound {
+	if !mentionsAny(body, bound) {
 		return body
 	}
 	// 'if' cannot be used in patterns
@@ -775,11 +808,22 @@ func Forall(bound []*Term, body *Term, pats ...[]*Term) *Term {
 	pats = ok
 	return TT.intern(&Term{Op: "forall", Sort: BoolSort, Args: []*Term{body}, Bound: bound, Pats: pats})
 }
+func mentionsAny(t *Term, bound []*Term) bool {
+	for _, v := range t.fb {
+		for _, b := range bound {
+			if v == b {
+				return true
+			}
+		}
+	}
+	return false
+}
+
 func Exists(bound []*Term, body *Term) *Term {
 	if body == False {
 		return False
 	}
-	if !body.hasBound {
+	if !mentionsAny(body, bound) {
 		return body
 	}
 	return TT.intern(&Term{Op: "exists", Sort: BoolSort, Args: []*Term{body}, Bound: bound})
